@@ -58,6 +58,9 @@ pub mod h_err {
 pub mod h_comp {
     include!(concat!(env!("CHUMSKY_VERIF_DIR"), "/h_comp.rs"));
 }
+pub mod h_arity {
+    include!(concat!(env!("CHUMSKY_VERIF_DIR"), "/h_arity.rs"));
+}
 pub mod h_pratt2 {
     include!(concat!(env!("CHUMSKY_VERIF_DIR"), "/h_pratt2.rs"));
 }
@@ -90,6 +93,7 @@ pub fn register_all(r: &mut Vec<(&'static str, fn())>) {
     h_clone::register(r);
     h_iter2::register(r);
     h_pratt2::register(r);
+    h_arity::register(r);
     h_comp::register(r);
     #[cfg(feature = "memoization")]
     h_memo::register(r);
